@@ -101,11 +101,9 @@ def make_source(kind, data, fmt, tmpdir, rng):
             with wave.open(decoy, "wb") as fp:
                 fp.setframerate(rate), fp.setsampwidth(width), fp.setnchannels(channels)
                 fp.writeframes(bytes(len(data) + width * channels))
-        with wave.open(path, "wb") as fp:
-            fp.setframerate(rate)
-            fp.setsampwidth(width)
-            fp.setnchannels(channels)
-            fp.writeframes(data)
+        from .. import audiocommon as AC2_
+
+        AC2_.write_wav(path, data, rate, width, channels, trailing_chunk=rng.random() < 0.4)  # a LIST chunk after the audio is not audio
         return WaveAudioSource(path), (lambda: None)
     if kind == "raw_fifo":
         # a "raw file" that is a named pipe fed by a bursty writer: sizes reported by the file system mean nothing, reads may
